@@ -200,7 +200,13 @@ func (w *World) CheckWithdrawSequences(inst *Instance, ws *WalletState, l *Ledge
 	if len(coins) > 3 {
 		coins = coins[:3]
 	}
-	for _, c := range coins {
+	for ci, c := range coins {
+		// with and without a transaction lock time (which changes the default
+		// sequence of ordinary inputs, never the required relative lock)
+		lockTime := uint64(0)
+		if ci%2 == 1 {
+			lockTime = 500 + uint64(ci)
+		}
 		dest := w.Gen.addrString(c.Holder)
 		amounts := map[string]massutil.Amount{}
 		if c.Amount < 400000 {
@@ -212,7 +218,7 @@ func (w *World) CheckWithdrawSequences(inst *Instance, ws *WalletState, l *Ledge
 		var err error
 		inputs := []*masswallet.TxIn{{TxId: c.Op.Hash.String(), Vout: c.Op.Index}}
 		if !inst.RunCall("CreateRawTransaction", true, func() {
-			hexTx, _, err = inst.WM.CreateRawTransaction(inputs, amounts, 0, "", nil)
+			hexTx, _, err = inst.WM.CreateRawTransaction(inputs, amounts, lockTime, "", nil)
 		}) {
 			return
 		}
